@@ -8,6 +8,7 @@
 import Winter.Model.Security
 import Winter.Gen.Security
 import Winter.Gen.ProofOpts
+import Winter.Gen.ProofContext
 import WinterProofs.Lemmas.GenTactic
 
 namespace C18G
@@ -166,5 +167,81 @@ theorem genConj_via_accessors (o : Options) (k bits n cr : Nat) (h : Ext.ofNat? 
   rw [(gen_accessors o.blowup).2.1, (gen_accessors o.grinding).2.2.1, (gen_accessors o.numQueries).1, a4,
     (gen_degree_eq k o.ext h).1]
   rfl
+
+/-! ## air/src/proof/context.rs: `Context::new` size guards, `num_modulus_bits` (Winter/Gen/ProofContext.lean) -/
+
+/-- ★ `Context::new` (regenerated: `trace_length <= u32::MAX`, `lde_domain_size <= u32::MAX`, the checked
+    product) accepts exactly what the model's `contextAccepted` accepts, for ALL arguments -/
+theorem gen_context_new_ok (o : Options) (n : Nat) :
+    Gen.ProofContext.new_ok n o.blowup = contextAccepted o n := by
+  unfold contextAccepted
+  unfold_gen Gen.ProofContext
+  rw [Bool.eq_iff_iff]
+  simp only [Bool.and_eq_true, decide_eq_true_eq]
+  constructor <;> intro h <;> omega
+
+/-- `Context::lde_domain_size` (regenerated) -/
+theorem gen_context_lde (b n : Nat) : Gen.ProofContext.lde_domain_size b n = n * b := by
+  unfold_gen Gen.ProofContext; rfl
+
+theorem clz_eq_clz8 (b : Nat) (hb : b ≠ 0) : Gen.clz 8 b = clz8 b := by
+  unfold Gen.clz Gen.bitLen clz8; simp only [hb, if_false]; omega
+
+/-- once the translated loop has returned (`ret_done`), the remaining bytes change nothing and cannot panic -/
+theorem modBits_done : ∀ (bs : List Nat) (nb rv : Nat),
+    Gen.ProofContext.num_modulus_bits.for1 bs nb true rv = (nb, true, rv) ∧
+    Gen.ProofContext.num_modulus_bits.for1_ok bs nb true rv = true := by
+  intro bs
+  induction bs with
+  | nil => intro nb rv; simp [Gen.ProofContext.num_modulus_bits.for1, Gen.ProofContext.num_modulus_bits.for1_ok]
+  | cons b t ih =>
+    intro nb rv
+    rw [Gen.ProofContext.num_modulus_bits.for1, Gen.ProofContext.num_modulus_bits.for1_ok]
+    unfold_gen Gen.ProofContext
+    simpa using ih nb rv
+
+/-- the translated loop (with its early `return` as the flag `ret_done` and the value `ret_val`) against the
+    model's loop -/
+theorem modBits_loop : ∀ (bs : List Nat) (nb rv l : Nat),
+    modBitsLoop bs nb = .ok l ↔
+      (Gen.ProofContext.num_modulus_bits.for1_ok bs nb false rv = true ∧
+        (if (Gen.ProofContext.num_modulus_bits.for1 bs nb false rv).2.1 = true
+          then (Gen.ProofContext.num_modulus_bits.for1 bs nb false rv).2.2 else 0) = l) := by
+  intro bs
+  induction bs with
+  | nil =>
+    intro nb rv l
+    simp [modBitsLoop, Gen.ProofContext.num_modulus_bits.for1, Gen.ProofContext.num_modulus_bits.for1_ok]
+  | cons b t ih =>
+    intro nb rv l
+    rw [Gen.ProofContext.num_modulus_bits.for1, Gen.ProofContext.num_modulus_bits.for1_ok, modBitsLoop]
+    unfold_gen Gen.ProofContext
+    by_cases hb : b = 0
+    · subst hb
+      simp only [ne_eq, not_true_eq_false, if_false, bind, Res.bind, subU32]
+      by_cases h8 : 8 ≤ nb
+      · simp [h8, ih (nb - 8) rv l]
+      · simp [h8]
+    · have hc := clz_eq_clz8 b hb
+      simp only [ne_eq, hb, not_false_eq_true, if_true, subU32]
+      rw [hc]
+      obtain ⟨d1, d2⟩ := modBits_done t (nb - clz8 b) (nb - clz8 b)
+      by_cases hk : clz8 b ≤ nb
+      · simp [hk, d1, d2]
+      · simp [hk]
+
+/-- ★ `Context::num_modulus_bits` (regenerated from air/src/proof/context.rs: the `for` over the reversed bytes
+    with its early `return`, `leading_zeros`, the checked `u32` subtractions) IS the model function, for every
+    byte string a context can carry (length below 2^29, so that `len() as u32 * 8` is exact): the model returns
+    `ok l` exactly when the regenerated no-panic condition holds and the regenerated function returns `l` -/
+theorem gen_num_modulus_bits_ok_iff (bs : List Nat) (l : Nat) (hl : bs.length < 536870912) :
+    numModulusBits bs = .ok l ↔
+      (Gen.ProofContext.num_modulus_bits_ok bs = true ∧ Gen.ProofContext.num_modulus_bits bs = l) := by
+  have hm : bs.length % 4294967296 = bs.length := Nat.mod_eq_of_lt (by omega)
+  unfold numModulusBits
+  unfold_gen Gen.ProofContext
+  simp only [bind, Res.bind, mulU32, U32, hm, Bool.and_eq_true, decide_eq_true_eq, Bool.decide_eq_true,
+    show bs.length * 8 < 4294967296 from by omega, if_true, true_and]
+  exact modBits_loop bs.reverse (bs.length * 8) 0 l
 
 end C18G
